@@ -158,8 +158,19 @@ def judge(pid, units, tier, t0, level, coverage_extra, assumptions, relevant=Non
         for te in u.get('tool_errors', []):
             tool.append(te)
         for c in u.get('crashes', []):
-            viol.append({'scn': 'crash:' + str(c.get('at')), 'labels': ['process_died rc=%s' % c.get('rc')], 'op': '?',
-                         'failing': {'scn': c.get('at'), 'fails': [], 'scenario': None, 'trace': [], 'crash': c}})
+            # a dead or hung process is a violation of C11 (every call returns) and of the property the scenario
+            # exercises; for any other property the run is incomplete: no verdict
+            try:
+                sc = json.loads(c.get('scenario') or '{}')
+                tg = set(sc.get('tags', []))
+                mine = pid == 'C11' or pid not in RING_WANT or bool(RING_WANT[pid](tg, {'evs': [{'op': sc.get('first_op', '')}]}))
+            except Exception:
+                mine = True
+            if not mine:
+                tool.append('the harness process died or hung in scenario %s (%s); C11 and the properties that scenario exercises report it' % (c.get('at'), c.get('what')))
+                continue
+            viol.append({'scn': 'crash:' + str(c.get('at')), 'labels': ['%s rc=%s' % (c.get('what', 'process_died'), c.get('rc'))], 'op': '?',
+                         'failing': {'scn': c.get('at'), 'fails': [], 'scenario': c.get('scenario'), 'trace': [], 'crash': c}})
         for fl in u.get('failing', []):
             mine = []
             for f in fl['fails']:
@@ -373,12 +384,124 @@ def check_c13(tier, t0):
         'hash equality is checked with std DefaultHasher on buffers of equal capacity'])
 
 
+def check_c18(tier, t0):
+    """default build vs nightly build with the `unstable` cargo feature: (i) every trace of the unstable build is
+    accepted by the same contract, (ii) the property-level digest of every scenario is identical in both builds"""
+    sets = []
+    scs, stats = ring_scenarios(tier, 'plain', lambda t, r: not FAULTY(t), wide=True)
+    sets.append(('ring-nofault-%s' % tier, scs))
+    scs2, stats2 = ring_scenarios(tier, 'plain', lambda t, r: FAULTY(t))
+    sets.append(('ring-fault-%s' % tier, scs2))
+    top = 2 if tier == 'quick' else 3
+    obs = []
+    for n in range(0, top + 1):
+        for m in range(0, top + 1):
+            raw, st = scen.obs_raw(n, m)
+            for k, pair in enumerate(scen.load_raw(raw)):
+                obs.append(scen.obs_build(pair, 'ob%d_%d-%d' % (n, m, k), k))
+    sets.append(('obs-c18-%s' % tier, obs))
+    viol = []
+    units = []
+    ncmp = 0
+    for name, sc in sets:
+        ud = run_unit(name, sc, feat='default')
+        uu = run_unit(name, sc, feat='unstable')
+        if uu.get('build_failed') or ud.get('build_failed'):
+            bad = uu if uu.get('build_failed') else ud
+            path = os.path.join(core.ensure(os.path.join(OUT, 'violations', 'C18')), 'build_%s.log' % bad['feat'])
+            open(path, 'w').write(bad['build_output'])
+            if bad['feat'] == 'unstable':
+                log('VIOLATION property=C18 replay=%s  (the crate does not build on nightly with --features unstable)' % path)
+                core.write_evidence('C18', {'property_id': 'C18', 'tier': tier, 'seed': seed(), 'level': 'model_checking',
+                                            'coverage': {'evaluations': 1, 'distinct_nontrivial': 2, 'samples': ['build']},
+                                            'wall_s': time.time() - t0, 'violations': 1})
+                return 1
+            log('TOOL-ERROR: default harness build failed\n' + bad['build_output'][-2000:])
+            return 2
+        units.append(uu)
+        by_id = {s['id']: s for s in sc}
+        dfail = {f['scn']: f for f in ud.get('failing', [])}
+        for f in uu.get('failing', []):
+            if f['scn'] not in dfail:
+                viol.append((f['scn'], 'rejected by the contract only in the unstable build: %s' % sorted({l[1] for x in f['fails'] for l in x['f']}), by_id.get(f['scn'])))
+        for sid, dg in ud.get('digests', {}).items():
+            ncmp += 1
+            if uu.get('digests', {}).get(sid) != dg:
+                viol.append((sid, 'results / contents / panics / lifecycle events differ between the default and the unstable build', by_id.get(sid)))
+        for c in uu.get('crashes', []):
+            viol.append(('crash:' + str(c.get('at')), 'process died in the unstable build rc=%s' % c.get('rc'), None))
+        for te in uu.get('tool_errors', []) + ud.get('tool_errors', []):
+            log('TOOL-ERROR: ' + te[:2000])
+            return 2
+    vdir = core.ensure(os.path.join(OUT, 'violations', 'C18'))
+    for k, (sid, why, sc) in enumerate(viol):
+        path = os.path.join(vdir, re.sub(r'[^A-Za-z0-9_.-]', '_', str(sid)) + '.json')
+        rec = {'property': 'C18', 'scenario': sc, 'why': why, 'replay_cmd': 'bin/verif replay ' + path}
+        if sc is not None and k < 5:
+            for feat in ('default', 'unstable'):
+                a = core.run_scenarios([json.dumps(sc)], feat=feat, tag='c18replay', keep=True)
+                tr = os.path.join(a['work'], 'trace_0.ndjson')
+                rec['trace_' + feat] = open(tr).read().splitlines()[:200] if os.path.exists(tr) else []
+                shutil.rmtree(a['work'], ignore_errors=True)
+        json.dump(rec, open(path, 'w'), indent=1)
+        if k < 12:
+            log('VIOLATION property=C18 replay=%s  (%s: %s)' % (path, sid, why))
+    cov = {'states': max(1, sum(u.get('tlc_states', 0) for u in units)), 'transitions': max(1, sum(u.get('tlc_transitions', 0) for u in units)),
+           'traces_validated_against_impl': sum(u['scenarios'] for u in units), 'scenario_digests_compared': ncmp,
+           'events_validated': sum(u['events'] for u in units), 'samples': sample_of(scs2, 2) + sample_of(obs, 1),
+           'configurations': ['stable toolchain, default features', 'nightly toolchain, --features unstable'],
+           'digest': 'FNV-1a over op, arguments, callback events (kind, ids), unwound, return value, contents, payloads, length flags, accessor rows of every event of a scenario; excludes addresses, split point, allocation counts, panic message'}
+    core.write_evidence('C18', {'property_id': 'C18', 'tier': tier, 'seed': seed(), 'level': 'model_checking', 'coverage': cov,
+                                'assumptions': COMMON_ASSUME + ['the nightly toolchain installed in the sandbox stands for "a nightly toolchain"'],
+                                'wall_s': round(time.time() - t0, 2), 'violations': len(viol)})
+    log('C18 [%s]: %d scenarios replayed in both builds, %d digests compared, %d violations, %.1fs' % (tier, sum(u['scenarios'] for u in units), ncmp, len(viol), time.time() - t0))
+    return 1 if viol else 0
+
+
+def check_c19(tier, t0):
+    scs, stats = [], []
+    for nm in (7, 6, 5, 4, 3):
+        raw, st = scen.z_raw(nm)
+        stats.append(st)
+        for k, r in enumerate(scen.load_raw(raw)):
+            lay = r['lay']
+            if tier == 'quick' and not (lay['size'] <= 3 and (lay['start'] in (0, 1, nm - 2, nm - 1)) and k % 3 == 0):
+                continue
+            for ncode in scen.Z_MAP[nm]:
+                scs.append(scen.z_build(r, 'z%d-%d-%s' % (nm, k, ncode), ncode))
+    u = run_unit('zst-%s' % tier, scs)
+    cov = l1_cov(stats)
+    cov['states_note'] = ('l1_* = exhaustive TLC runs of spec/Ring.tla with MaxU = 7 (3-bit word) and N in {7,6,5,4,3}, where start + i really '
+                          'overflows the word; every add_mod call site is checked against its preconditions and against intermediate overflow')
+    cov['real_capacities'] = sorted(scen.Z_BASE)
+    cov['samples'] = sample_of(scs)
+    extra = apalache_units(tier)
+    cov['symbolic'] = extra
+    if any(not x['ok'] for x in extra):
+        for x in extra:
+            if not x['ok']:
+                log('TOOL-ERROR: apalache obligation failed or did not finish: %s\n%s' % (x['name'], x.get('tail', '')))
+        core.write_evidence('C19', {'property_id': 'C19', 'tier': tier, 'seed': seed(), 'level': 'model_checking', 'coverage': dict(cov, states=1, transitions=1, traces_validated_against_impl=0),
+                                    'wall_s': time.time() - t0, 'violations': 0})
+        return 2
+    return judge('C19', [u], tier, t0, 'model_checking', cov, COMMON_ASSUME + [
+        'the fill family and other O(N) loops are not run at the extreme capacities (as the property says)',
+        'symbolic part: Apalache/Z3 decide the arithmetic lemma and the scalar inductive step for all capacities up to 2^64-1 (spec/WordArith.tla, spec/Shape.tla); they are in the trusted base for that sub-claim'])
+
+
+def apalache_units(tier):
+    from . import apa
+    return apa.run_all(tier)
+
+
 CHECKS = {}
 for _p in RING_WANT:
     CHECKS[_p] = (lambda p: (lambda tier, t0: check_ring(p, tier, t0)))(_p)
 CHECKS['C04'] = check_c04
 CHECKS['C13'] = check_c13
 CHECKS['C14'] = check_c14
+CHECKS['C19'] = check_c19
+CHECKS['C18'] = check_c18
 CHECKS['C16'] = check_c16
 
 
@@ -402,7 +525,7 @@ def setup(argv):
             return 2
     log('specs parse (%.0fs)' % (time.time() - t0))
     # 2. harness builds
-    for feat in ['default', 'eio', 'eio-async', 'eio-both']:
+    for feat in ['default', 'eio', 'eio-async', 'eio-both', 'unstable']:
         binp, out = core.build_harness(feat, quiet=False)
         if binp is None:
             log(out[-3000:])
